@@ -13,6 +13,7 @@
 #include <functional>
 #include <limits>
 #include <map>
+#include <set>
 #include <tuple>
 
 #include <mpi.h>
@@ -212,6 +213,14 @@ namespace Dune
 
     /** @brief Information about the messages we send. */
     std::map<int,MessageInformation> infoSend_;
+
+    /**
+     * @brief The (global index, attribute) pairs added to the index set during the current sync.
+     *
+     * Indices added in resize mode are not visible in the index set before endResize().
+     * Without this record an index published by several neighbours would be added once per neighbour.
+     */
+    std::set<std::pair<GlobalIndex,char> > addedIndices_;
 
     /** @brief The type of the remote index list. */
     typedef typename RemoteIndices::RemoteIndexList RemoteIndexList;
@@ -851,6 +860,7 @@ namespace Dune
 
     oldMap_.clear();
     globalMap_.clear();
+    addedIndices_.clear();
 
     // update the sequence number
     remoteIndices_.sourceSeqNo_ = remoteIndices_.destSeqNo_ = indexSet_.seqNo();
@@ -1090,11 +1100,13 @@ namespace Dune
           auto pos = std::lower_bound(index, iEnd, IndexPair(global));
 
           if(pos == iEnd || pos->global() != global) {
-            // no entry with this global index
-            indexSet_.add(global,
-                          ParallelLocalIndex<Attribute>(numberer(global),
-                                                        myAttribute, true));
-            Dune::dvverb << "Adding "<<global<<" "<<myAttribute<<std::endl;
+            // no entry with this global index, add it unless another neighbour published it already
+            if(addedIndices_.insert(std::make_pair(global, attribute)).second) {
+              indexSet_.add(global,
+                            ParallelLocalIndex<Attribute>(numberer(global),
+                                                          myAttribute, true));
+              Dune::dvverb << "Adding "<<global<<" "<<myAttribute<<std::endl;
+            }
             continue;
           }
 
@@ -1109,7 +1121,7 @@ namespace Dune
               break;
             }
 
-          if(!indexIsThere) {
+          if(!indexIsThere && addedIndices_.insert(std::make_pair(global, attribute)).second) {
             indexSet_.add(global,
                           ParallelLocalIndex<Attribute>(numberer(global),
                                                         myAttribute, true));
